@@ -49,7 +49,7 @@ def bundle_specs(draw):
     pool = [(0, 1000, 0), (0, 1000, 1), (1, 1000, 0), (2, 77, 5)]
     src, tval, seq = pool[base]
     frag = None
-    variant = draw(st.sampled_from(['same', 'same', 'src', 'time', 'seq', 'frag', 'frag-off', 'frag-total', 'own', 'huge-time']))
+    variant = draw(st.sampled_from(['same', 'same', 'src', 'time', 'seq', 'frag', 'frag-off', 'frag-len', 'own', 'huge-time']))
     if variant == 'src':
         src = (src + 1) % 3
     elif variant == 'time':
@@ -60,8 +60,8 @@ def bundle_specs(draw):
         frag = [0, 10]
     elif variant == 'frag-off':
         frag = [5, 10]
-    elif variant == 'frag-total':
-        frag = [0, 11]
+    elif variant == 'frag-len':
+        frag = [0, 10, 5]      # same offset, shorter payload: a different fragment
     elif variant == 'own':
         src = 3
     elif variant == 'huge-time':
@@ -92,15 +92,17 @@ def build(spec):
         flags |= r.FLAG_RPT_RECEPTION | r.FLAG_RPT_DELIVERY | r.FLAG_RPT_FORWARD | r.FLAG_RPT_DELETION
     pri = dict(version=7, flags=flags, crc_type=1, dest=DESTS[dest % len(DESTS)], src=SOURCES[src % len(SOURCES)],
                rpt=['dtn', '//reports/'] if rpt else ['dtn', 'none'], ts=[int(tval), int(seq)], lifetime=3600000,
-               frag=list(frag) if frag is not None else None)
-    return {'primary': pri, 'blocks': [dict(type=1, num=1, flags=0, crc_type=2, data=b'payload-%d' .hex() if False else b'payload'.hex())]}
+               frag=list(frag[:2]) if frag is not None else None)
+    plen = frag[2] if frag is not None and len(frag) > 2 else 7
+    return {'primary': pri, 'blocks': [dict(type=1, num=1, flags=0, crc_type=2, data=b'payload'[:plen].hex())]}
 
 
 def ident_of(bundle):
     pri = bundle['primary']
     ident = (tuple(pri['src']), pri['ts'][0], pri['ts'][1])
     if pri['frag'] is not None:
-        ident += (pri['frag'][0], pri['frag'][1])
+        # RFC 9171: a fragment is identified by its offset and its own payload length
+        ident += (pri['frag'][0], len(bundle['blocks'][-1]['data']) // 2)
     return ident
 
 
